@@ -466,11 +466,13 @@ def _defs_of(f: Func, name: str) -> List[Tuple[str, ast.AST, ast.AST]]:
                 if isinstance(t, ast.Name) and t.id == name:
                     out.append(("assign", n.value, n))
                 elif isinstance(t, (ast.Tuple, ast.List)):
-                    for e in t.elts:
+                    pairwise = isinstance(n.value, (ast.Tuple, ast.List)) and len(n.value.elts) == len(t.elts) and not any(isinstance(e, ast.Starred) for e in t.elts)
+                    for i, e in enumerate(t.elts):
                         if isinstance(e, ast.Starred) and isinstance(e.value, ast.Name) and e.value.id == name:
                             out.append(("unpack_star", n.value, n))
                         elif isinstance(e, ast.Name) and e.id == name:
-                            out.append(("unpack", n.value, n))
+                            # `a, b = x, y` is `a = x; b = y` (the right-hand side is evaluated first)
+                            out.append(("assign", n.value.elts[i], n) if pairwise else ("unpack", n.value, n))
         elif isinstance(n, ast.AnnAssign) and isinstance(n.target, ast.Name) and n.target.id == name and n.value is not None:
             out.append(("assign", n.value, n))
         elif isinstance(n, ast.NamedExpr) and isinstance(n.target, ast.Name) and n.target.id == name:
